@@ -1067,6 +1067,12 @@ class RealFabricDelivery:
         d.before("registries", "append")
         return list.append(self, x)
 
+      def __setitem__(self, k, v):
+        if isinstance(k, slice):
+          v = list(v)                      # the right-hand side is evaluated before the one C-level replacement
+          d.before("registries", "replace")
+        return list.__setitem__(self, k, v)
+
       def __iter__(self):
         i = 0
         while True:
